@@ -98,7 +98,11 @@ pub(crate) fn access_with_integer<Data: GarnishData>(
         }
         GarnishDataType::Slice => {
             let (value, range) = this.get_slice(value)?;
-            let (start, _, _) = get_range(this, range)?;
+            let (start, _, len) = get_range(this, range)?;
+            // an index outside the slice names no item, even where the sliced value goes on
+            if index < Data::Number::zero() || index >= len {
+                return Ok(None);
+            }
             let adjusted_index = start.plus(index).or_num_err()?;
 
             match this.get_data_type(value.clone())? {
